@@ -190,15 +190,27 @@ func clSkiplistCursorSession(c *Ctx) {
 	if n < 2 {
 		undecidedf("skiplist cursor: only %d Acquire sites found", n)
 	}
-	for _, name := range []string{"Close", "Pause"} {
-		fn := p.Func("skiplist", "Iterator", name)
+	// releasesHeld: on every path of fn on which a token is held, it is released — directly or
+	// through another method of the same cursor that does so (a helper shared by Close and Pause)
+	var releasesHeld func(fn *ssa.Function, depth int) bool
+	releasesHeld = func(fn *ssa.Function, depth int) bool {
+		if fn.Blocks == nil || len(fn.Params) == 0 {
+			return false
+		}
 		fi := p.Info(fn)
 		isRel := func(x ssa.Instruction) bool {
-			if !p.IsCall(x, rel) {
-				return false
+			if p.IsCall(x, rel) {
+				f, b := loadedField(callOf(x).Args[1])
+				return f == fBs && strip(b) == strip(fn.Params[0])
 			}
-			f, b := loadedField(callOf(x).Args[1])
-			return f == fBs && strip(b) == strip(fn.Params[0])
+			if call, ok := x.(*ssa.Call); ok && depth < 2 {
+				g := call.Call.StaticCallee()
+				if g != nil && g != fn && g.Package() == fn.Package() && p.helperCall(x) == nil && len(call.Call.Args) > 0 &&
+					strip(call.Call.Args[0]) == strip(fn.Params[0]) && g.Signature.Recv() != nil {
+					return releasesHeld(g, depth+1)
+				}
+			}
+			return false
 		}
 		esc := fi.PathAvoidingEdges(nil, func(x ssa.Instruction) bool {
 			r, ok := x.(*ssa.Return)
@@ -213,7 +225,11 @@ func clSkiplistCursorSession(c *Ctx) {
 			}
 			return false
 		})
-		c.Check(esc == nil, fn, nil, "skiplist Iterator."+name+" releases the session token whenever one is held",
+		return esc == nil
+	}
+	for _, name := range []string{"Close", "Pause"} {
+		fn := p.Func("skiplist", "Iterator", name)
+		c.Check(releasesHeld(fn, 0), fn, nil, "skiplist Iterator."+name+" releases the session token whenever one is held",
 			"a closed (or paused) cursor keeps its token: the session it was counted in never terminates, so nothing retired from then on is ever freed")
 	}
 }
